@@ -130,6 +130,10 @@ func genC15(t *rapid.T) interface{} {
 			lastSet = op.I
 			if rapid.Bool().Draw(t, "above") && len(sets[op.I]) > 0 && sets[op.I][len(sets[op.I])-1] < 8 {
 				op.V = rapid.IntRange(sets[op.I][len(sets[op.I])-1]+1, 8).Draw(t, "vabove")
+			} else if si := sets[op.I]; len(si) >= 2 && si[len(si)-1]-si[0] >= 2 && rapid.IntRange(0, 2).Draw(t, "inside") == 0 {
+				// strictly between the smallest and the largest element: siblings made this way have the
+				// same length and the same ends and differ somewhere in the middle
+				op.V = rapid.IntRange(si[0]+1, si[len(si)-1]-1).Draw(t, "vinside")
 			}
 			sets = append(sets, norm(append(append([]int{}, sets[op.I]...), op.V)))
 		case "union":
@@ -144,6 +148,19 @@ func genC15(t *rapid.T) interface{} {
 				}
 				if len(above) > 0 {
 					op.J = above[rapid.IntRange(0, len(above)-1).Draw(t, "jabove")]
+				}
+			}
+			if rapid.IntRange(0, 3).Draw(t, "lookalike") == 0 && len(sets[op.I]) > 0 {
+				// a different set of the same length with the same smallest and largest element
+				si := sets[op.I]
+				var like []int
+				for j, sj := range sets {
+					if len(sj) == len(si) && sj[0] == si[0] && sj[len(sj)-1] == si[len(si)-1] && fmt.Sprint(sj) != fmt.Sprint(si) {
+						like = append(like, j)
+					}
+				}
+				if len(like) > 0 {
+					op.J = like[rapid.IntRange(0, len(like)-1).Draw(t, "jlike")]
 				}
 			}
 			lastSet = op.I
